@@ -116,7 +116,7 @@ class Ctx:
         path = os.path.join(self.work, "Audit_%s.v" % module.replace(".", "_"))
         open(path, "w").write(src)
         rc, out2 = self.coqc(path)
-        if self.tier == "thorough" and ok_static and not getattr(self, "replay", None):
+        if self.tier == "thorough" and ok_static and not getattr(self, "replay", None) and not os.environ.get("VERIF_ESCALATED"):
             self.coqchk(module)
         for t in theorems:
             m = re.search(r"@@BEGIN %s\n(.*?)@@END %s" % (re.escape(t), re.escape(t)), out2, re.S)
@@ -308,6 +308,34 @@ class Ctx:
             c["exhaustive"] = True
 
     # ------------------------------------------------------------------ verdict
+    def escalate(self):
+        """DESIGN.md 2.6: a proof obligation or the correspondence broke and no oracle fired on the regular
+        cases.  Search harder for a concrete failing input before giving the no-input verdict: the same check
+        with the thorough generator volume under other seeds, in its own scratch area, oracles only (no
+        evidence, no coqchk), bounded in time.  Returns the VIOLATION lines (with replay files) it produced."""
+        if os.environ.get("VERIF_NO_ESCALATION") or getattr(self, "replay", None):
+            return []
+        budget = int(os.environ.get("VERIF_ESCALATION_S", "600"))
+        t_end = time.time() + budget
+        lines = []
+        plans = [("thorough", self.seed + 1)] if self.tier != "thorough" else []
+        plans += [("quick", self.seed + 2), ("quick", self.seed + 3)]
+        for tier, seed in plans:
+            left = int(t_end - time.time())
+            if left < 30:
+                break
+            self.log("escalated search for a failing input: tier=%s seed=%d (at most %ds)" % (tier, seed, left))
+            env = dict(os.environ, VERIF_ESCALATED="1", VERIF_NO_EVIDENCE="1", VERIF_SEED=str(seed), VERIF_TIER=tier,
+                       VERIF_WORK=os.path.join(WORK, "_esc_" + self.pid))
+            rc, out = sh([os.path.join(VERIF, "bin", "check"), self.pid, "--tier", tier], cwd=VERIF, env=env, timeout=left)
+            for ln in out.splitlines():
+                if ln.startswith("VIOLATION ") and "no-failing-input-found" not in ln:
+                    lines.append(ln)
+            if lines:
+                break
+        shutil.rmtree(os.path.join(WORK, "_esc_" + self.pid), ignore_errors=True)
+        return lines
+
     def finish(self, checker_cmd, trusted_base, level_unproved=None):
         known_keys = {k["key"]: k for k in self.known if k.get("status") == "known"}
         violations = []
@@ -359,8 +387,15 @@ class Ctx:
                           open(path, "w"), indent=1)
                 print("VIOLATION property=%s replay=%s" % (self.pid, path), flush=True)
             rc = 1
+        elif self.broken and os.environ.get("VERIF_ESCALATED"):
+            rc = 1   # an escalation run reports concrete inputs only; the caller prints the no-input verdict
         elif self.broken:
             kind, name, detail = self.broken[0]
+            found = self.escalate()
+            for line in found:
+                print(line, flush=True)
+            if found:
+                rc = 1
             path = os.path.join(VERIF, "replays", "%s_broken_%s.json" % (
                 self.pid, hashlib.sha1(name.encode()).hexdigest()[:8]))
             json.dump({"property": self.pid, "kind": kind, "theorem": name, "seed": self.seed,
@@ -369,8 +404,9 @@ class Ctx:
                        "note": "proof obligation or correspondence no longer checks; the escalated "
                                "search found no input on which the property's own oracle fails"},
                       open(path, "w"), indent=1)
-            print("VIOLATION property=%s replay=%s no-failing-input-found" % (self.pid, path),
-                  flush=True)
+            if not found:
+                print("VIOLATION property=%s replay=%s no-failing-input-found" % (self.pid, path),
+                      flush=True)
             rc = 1
         ob = len(self.obligations)
         dis = sum(1 for _, ok, _ in self.obligations if ok)
